@@ -19,6 +19,24 @@ CLAIMED = {
         technique="Coq proof over a model regenerated from source (translator) + interval-certified differential check"),
 }
 
+CLAIMED["C15"] = dict(
+    text="Proof: (1) get_rpn + the stack machine of evaluator.cpp return the direct evaluation of every expression tree, for every "
+         "value domain (rpn_correct, stack discipline; axiom-free); (2) the symbolic derivative rules of reverse_sd give the true "
+         "partial derivative (Coquelicot is_derive) on the differentiability domain; (3) the first true condition selects the branch "
+         "of a conditional constraint; (4) after any register/remove history reference counts equal the number of live referencing "
+         "constraints and a leaf has a C++ object iff that number is positive. Ties, decided inside coqc: the real get_rpn output equals "
+         "rpn of the tree reconstructed from the real operator DAG (exact), compiled residuals/Jacobian entries/columns equal evalR / "
+         "evalR(D v .) / vars_of on random models incl. shared sub-expressions and conditional constraints (interval), and reference "
+         "counts/liveness after random histories equal the model (vm_compute).",
+    ref="DESIGN.md section 5 C15",
+    note="Trusted: Coq kernel; stdlib real axioms + Classical_Prop.classic (via Coquelicot) for sd_correct; coq-interval; the tree "
+         "dumper in tools/props/c15.py. Modelled not verified: binary64 rounding and libm (1e-9 relative), SWIG glue, std::set ordering "
+         "(rows/columns are matched through the reported index attributes). Partial: asin/acos and if_else nodes are outside the "
+         "derivative theorem (tied numerically only); the constant-folding smart constructors of expr.py are exercised, not modelled. "
+         "Cases the interval tactic cannot decide within 12 s are cross-checked against the implementation's own interpreted evaluation "
+         "and reported as undecided, not as discharged.",
+    technique="Coq proof (compiler correctness by induction, Coquelicot derivatives, invariant over histories) + structural and interval-certified correspondence")
+
 NOT_YET = {
 }
 
